@@ -28,10 +28,19 @@ STRINGS = {  # method -> (encoded?, fixed?)
 }
 
 
+def _normalised(ev, args, kw, node):
+    """unicodedata.normalize(form, s): another string -- composition/decomposition changes the number of characters, so
+    nothing ties its length to the argument's."""
+    if len(args) == 2 and isinstance(args[1], AbsStr):
+        return AbsStr("normalised string")
+    raise AnalysisError("engine B: unicodedata.normalize(%r)" % (args,))
+
+
 class WriterWorld:
     def __init__(self, index):
         self.index = index
-        self.ev = NumEval(index, natives={"bytearray": checked_bytes, "bytes": checked_bytes, "range": sym_range_builtin})
+        self.ev = NumEval(index, natives={"bytearray": checked_bytes, "bytes": checked_bytes, "range": sym_range_builtin},
+                          module_hooks={"unicodedata.normalize": _normalised})
         self.ev.list_times = list_times
         self.ev.encoded = []  # AbsBufs produced by encoding a str
         self.ev.abs_bufs = []
